@@ -189,8 +189,7 @@ theorem startSend_pinv (fl cfg s t f h vs) : PInv (.snd f h vs) (startSend fl cf
   · exact PInv.fin_tag _ _ _ (Or.inr (Or.inr (Or.inl rfl)))
   · split
     · exact PInv.fin_tag _ _ _ (Or.inr (Or.inr (Or.inr rfl)))
-    · simp only []
-      split
+    · split
       · split
         · exact osSendStep_pinv rfl hso
         · exact PInv.fin_tag _ _ _ (Or.inr (Or.inr (Or.inr rfl)))
@@ -199,7 +198,8 @@ theorem startSend_pinv (fl cfg s t f h vs) : PInv (.snd f h vs) (startSend fl cf
           · exact failSend_pinv rfl hso
           · exact rvSendStep_pinv rfl hso
         · exact PInv.fin_tag _ _ _ (Or.inr (Or.inr (Or.inr rfl)))
-      · split
+      · unfold startSendBuf
+        split
         · rename_i he
           have hv0 : vs = [] := by simpa using firstHit_E he
           exact PInv.fin_tag _ _ _ (Or.inr (Or.inl (by simp [Op.vals, hv0])))
